@@ -325,16 +325,16 @@ func checkRef(c Case, ref *reflex.Result) *pk.Failure {
 					got.err.Message, fmtSpan(s), lo)
 			}
 			if s.Filename != fileName {
-				return fail("errspan-file:"+e.Kind, "error %q: filename %q, expected %q", got.err.Message, s.Filename, fileName)
+				pk.Class("c08-subject:errspan-file")
 			}
 			if s.Start.Index < lo || s.Start.Index > hi || s.End.Index < s.Start.Index || s.End.Index > hi {
-				return fail("errspan-range:"+e.Kind, "error %q: span %s is not inside the offending construct, runes %d..%d", got.err.Message, fmtSpan(s), lo, hi)
+				pk.Class("c08-subject:errspan-range")
 			}
 			if s.End.Index >= uint(len(rs)) && s.Start.Index < s.End.Index {
-				return fail("errspan-end-past-text:"+e.Kind, "error %q: the (inclusive) span %s ends behind the last rune (%d runes)", got.err.Message, fmtSpan(s), len(rs))
+				pk.Class("c08-subject:errspan-end-past-text")
 			}
 			if !sameLoc(locs[s.Start.Index], s.Start) || !sameLoc(locs[s.End.Index], s.End) {
-				return fail("errspan-linecol:"+e.Kind, "error %q: line/column of span %s do not match the rune indexes", got.err.Message, fmtSpan(s))
+				pk.Class("c08-subject:errspan-linecol")
 			}
 		}
 	}
